@@ -160,3 +160,28 @@ Theorem C08_step_single_fault_documented :
      (exists e, r = MErr e) /\ VpH pa h w' = VpH pa h w).
 Proof. exact step_fault_documented. Qed.
 Print Assumptions C08_step_single_fault_documented.
+
+(* ------------------------------------------------------------------ *)
+(** ** the layering of the constructors New / NewWithFS
+    [ncfg q = mkConfig None [q] q]: HiddenFS directly over the OS filesystem
+    (no PrefixFS), the backup location [q] - an absolute cleaned path other
+    than "/" - hidden from the base and the root of the backup filesystem.
+    The base view [V0H q] (Spec/ViewRoot.v) is the WHOLE filesystem except the
+    location and what lies below it; it shows link targets as stored ([tn_0],
+    the identity: without PrefixFS nothing cleans them).  The root "/" is a
+    proper ancestor of the location ([anc_h q]): it cannot be removed (EBUSY)
+    or renamed.  Proofs/LawsNew.v. *)
+From BFS Require Import Spec.ViewHidden Spec.ViewRoot Proofs.LawsNew.
+
+Theorem C08_step_single_fault_new :
+  forall q, hidden_ok q ->
+  forall B0, links_ok tn_0 clean (acc_0 q) (acc_p q) B0 -> all_small B0 -> swf B0 ->
+  forall o w, InvF (V0H q) (Vp q) B0 w -> single (w_faults w) -> covered (V0H q) o w ->
+  exists r w', step (cfg_base (ncfg q)) (cfg_backup (ncfg q)) o w = (r, w') /\ r <> MHalt /\
+    w_crash w' = None /\ w_faults w' = w_faults w /\
+    (kind_stable (V0H q) w' -> InvF (V0H q) (Vp q) B0 w') /\ infos_ext_in w w' (op_touches o) /\
+    (spent w -> spent w') /\
+    (takes_backup o = true -> no_base_fault TBase w -> ~ spent w -> spent w' ->
+     (exists e, r = MErr e) /\ V0H q w' = V0H q w).
+Proof. exact step_fault_new. Qed.
+Print Assumptions C08_step_single_fault_new.
